@@ -8,7 +8,8 @@
 (* request (DOC).  Steps grant one more relevant bit.                           *)
 EXTENDS Sec, TLC, Json
 
-CONSTANTS Surrounds,   \* set of subsets of {3, 6, 9, 12} to combine with
+CONSTANTS VRPairs,     \* <</V, /R>> pairs of the encryption dictionary (the decision must depend on /R only)
+          Surrounds,   \* set of subsets of {3, 6, 9, 12} to combine with
           DocHi,       \* values of hi for which end-to-end documents are requested
           DocSurs,     \* surrounding-bit sets for which end-to-end documents are requested
           FullDocs,    \* FALSE: documents only where the two bits of the other revision layout are both set or both clear
@@ -18,8 +19,12 @@ CONSTANTS Surrounds,   \* set of subsets of {3, 6, 9, 12} to combine with
           ApiSurs,     \* ... and surrounding-bit sets
           Emit
 
-VARIABLES rel, sur, hi, R
-vars == <<rel, sur, hi, R>>
+(* cfg: VRPairs <- VRQuick / VRAll.  /V 1 /R 3 (40-bit key, revision 3 permissions) and /V 2 /R 2 are legal pairings. *)
+VRQuick == {<<1, 2>>, <<2, 2>>, <<1, 3>>, <<2, 3>>, <<4, 4>>, <<5, 5>>, <<5, 6>>}
+VRAll   == VRQuick \cup {<<4, 2>>, <<4, 3>>, <<1, 4>>, <<2, 4>>, <<4, 5>>, <<2, 6>>, <<1, 6>>}
+
+VARIABLES rel, sur, hi, V, R
+vars == <<rel, sur, hi, V, R>>
 
 Relevant == {4, 5, 10, 11}
 B(S, k, v) == IF k \in S THEN v ELSE 0
@@ -28,8 +33,8 @@ BitsVal(S) == B(S, 3, 4) + B(S, 4, 8) + B(S, 5, 16) + B(S, 6, 32) + B(S, 9, 256)
 PVal(r, s, h) == BitsVal(r \cup s) + (IF h THEN 195 - 4096 ELSE 0)
 P == PVal(rel, sur, hi)
 
-Init == rel = {} /\ sur \in Surrounds /\ hi \in BOOLEAN /\ R \in 2..6
-Next == \E b \in Relevant \ rel : rel' = rel \cup {b} /\ UNCHANGED <<sur, hi, R>>
+Init == rel = {} /\ sur \in Surrounds /\ hi \in BOOLEAN /\ \E vr \in VRPairs : V = vr[1] /\ R = vr[2]
+Next == \E b \in Relevant \ rel : rel' = rel \cup {b} /\ UNCHANGED <<sur, hi, V, R>>
 Spec == Init /\ [][Next]_vars
 
 ModeSeq == [i \in 1..(Len(NeedsTable) + Len(Unclassified)) |->
@@ -55,11 +60,11 @@ Case == LET p == P
             ms == ModeSeq
             xd == ExtractDenied(p, R)
             md == ModifyDenied(p, R)
-        IN [p |-> p, r |-> R, rows |-> [i \in 1..Len(ms) |-> Row(ms[i], xd, md)]]
+        IN [p |-> p, v |-> V, r |-> R, rows |-> [i \in 1..Len(ms) |-> Row(ms[i], xd, md)]]
 EmitCase == Emit => PrintT(<<"CASE", ToJson(Case)>>)
 
 (* end-to-end document requests: algorithms producing revision R *)
-DocAlgs == {a \in E2EAlgs : Rev(a) = R}
+DocAlgs == {a \in E2EAlgs : Rev(a) = R /\ AlgV(a) = V}
 Doc(a) == [alg |-> a, p |-> P, api |-> (a \in ApiAlgs /\ rel \in ApiRels /\ sur \in ApiSurs)]
 OtherBits == IF R = 2 THEN {10, 11} ELSE {4, 5}
 DocWanted == FullDocs \/ (rel \cap OtherBits) \in {{}, OtherBits}
